@@ -3,7 +3,10 @@
 import json, os, glob, re
 HERE = os.path.dirname(os.path.dirname(os.path.abspath(__file__)))
 rows = ["| seed | breaks | change | needs to manifest | caught by |", "|---|---|---|---|---|"]
-for d in sorted(glob.glob(os.path.join(HERE, "seeded", "*"))):
+def order(d):
+    b = os.path.basename(d)
+    return (b.split("-")[0], int(b.split("-")[1]))
+for d in sorted(glob.glob(os.path.join(HERE, "seeded", "C[0-9][0-9]-*")), key=order):
     m = json.load(open(os.path.join(d, "meta.json")))
     esc = lambda t: str(t).replace("|", "\\|").replace("\n", " ")
     rows.append("| %s | %s | %s | %s | %s |" % (os.path.basename(d), m["property"], esc(m["change"]), esc(m["needs_to_manifest"]), esc(m["detected_by"])))
